@@ -67,6 +67,11 @@ func genC18(seed uint64, r *rng.Rand) *Plan {
 	if g.R.Chance(0.4) {
 		p.Scenario = "silent"
 		p.Faults = append(p.Faults, &Fault{On: "exec", N: g.R.Range(0, 10), Act: "silent", Server: 0})
+		if g.R.Chance(0.35) {
+			// the server stops reading as well: requests pile up in the socket
+			// buffers and a Write may block
+			p.Faults[len(p.Faults)-1] = &Fault{On: "exec", N: g.R.Range(1, 10), Act: "stall", Server: 0, Count: []int{0, 60, 150, 400, 5000}[g.R.Intn(5)]}
+		}
 	} else {
 		p.Scenario = "idle"
 		p.StableMS = g.R.Range(3, 20) * p.Client.ReadTimeoutMS
@@ -90,17 +95,24 @@ func checkC18(w *rcWorld, out *Outcome, root context.Context, reason string) {
 		// let the read deadline run out
 		e.Knobs.MaxIdle = 2 * timeout
 		e.Drain(3 * timeout)
-		for i := 0; i < 4 && cn.ReqWritten > cn.respProduced() && !cn.IsClosed() && e.Now() < cn.LastWriteAt+timeout; i++ {
+		_, stalled := e.Stall[0]
+		// requests the client has written: seen by the server, or accepted
+		// whole into the socket buffers of a server that does not read
+		written := func() int { return cn.ReqWritten + cn.heldFrames() }
+		for i := 0; i < 4 && written() > cn.respProduced() && !cn.IsClosed() && e.Now() < cn.LastWriteAt+timeout; i++ {
 			// a request was written less than one timeout ago: let its deadline pass
 			e.Drain(cn.LastWriteAt + timeout - e.Now() + time.Millisecond)
 		}
-		outstanding := cn.Srv.Silent && cn.ReqWritten > cn.respProduced()
+		outstanding := (cn.Srv.Silent || stalled) && written() > cn.respProduced()
+		if stalled && outstanding {
+			out.Extra["stalled_with_outstanding"]++
+		}
 		out.Nontrivial = outstanding
 		if outstanding {
 			out.Extra["silent_with_outstanding"]++
 			if !cn.IsClosed() {
 				add("silence-undetected", "server went silent with %d request(s) unanswered (last request written at %v) but the connection is still open at %v, read timeout %v",
-					cn.ReqWritten-cn.respProduced(), cn.LastWriteAt, e.Now(), timeout)
+					written()-cn.respProduced(), cn.LastWriteAt, e.Now(), timeout)
 			} else if cn.ClosedAt > cn.LastWriteAt+timeout {
 				add("detected-late", "unanswered requests were failed over at %v, later than the read timeout %v after the last request written at %v", cn.ClosedAt, timeout, cn.LastWriteAt)
 			}
@@ -168,6 +180,29 @@ func checkC18(w *rcWorld, out *Outcome, root context.Context, reason string) {
 			add("redialled", "the request after the idle period needed a new connection")
 		}
 	}
+}
+
+// heldFrames counts the complete request frames sitting in the socket
+// buffers of a stalled server.
+func (c *Conn) heldFrames() int {
+	c.mu.Lock()
+	defer c.mu.Unlock()
+	rest, hello := c.SC.Parser.Unparsed()
+	if !hello {
+		return 0
+	}
+	// the server may hold the beginning of a frame whose end is in the buffers
+	b := append(append([]byte(nil), rest...), c.held...)
+	n := 0
+	for len(b) >= 4 {
+		l := int(b[0])<<24 | int(b[1])<<16 | int(b[2])<<8 | int(b[3])
+		if len(b) < 4+l {
+			break
+		}
+		b = b[4+l:]
+		n++
+	}
+	return n
 }
 
 func (c *Conn) respProduced() int {
